@@ -169,14 +169,20 @@ package har
 // ---------------------------------------------------------------------------------------------
 // C15: post-data capture parses the SNAPSHOT of the body. After SnapshotRequest the request carries a fresh body that
 // will be forwarded; every consumer in postData reads from the snapshot's own reader, never from req.Body.
+//@ extern func httputil.NewChunkedReader
+//@   modifies bodyFramed
+//@   ensures !bodyFramed && result != nil
 //@ func postData
-//@   serves C15
+//@   serves C15 C16
 //@   requires req != nil && req.Header != nil && req.URL != nil
-//@   modifies http.Request.Body, messageview.MessageView.*, mvReadSrc, mvReadData, mvReaderData, mvReader, mvNopSrc, mvNop
+//@   modifies http.Request.Body, messageview.MessageView.*, mvReadSrc, mvReadData, mvReaderData, mvReader, mvNopSrc, mvNop, bodyFramed
 //@   noframe
 //@   loop 0 invariant true
 //@   loop 1 invariant true
 //@   loop 2 invariant true
 //@   at call 0 of NewReader before assert[multipart-parser-reads-the-snapshot-not-the-forwarded-body] arg0 == br
+//@   at call 0 of NewReader before assert[multipart-post-data-is-parsed-from-the-body-without-chunk-framing; C16] !bodyFramed
+//@   at call 1 of ReadAll before assert[form-post-data-is-parsed-from-the-body-without-chunk-framing; C16] !bodyFramed
+//@   at call 2 of ReadAll before assert[text-post-data-is-the-body-without-chunk-framing; C16] !bodyFramed
 //@   at call 1 of ReadAll before assert[form-parser-reads-the-snapshot-not-the-forwarded-body] arg0 == br
 //@   at call 2 of ReadAll before assert[text-capture-reads-the-snapshot-not-the-forwarded-body] arg0 == br
